@@ -346,6 +346,19 @@ def check_transfer(case):
                     est = pickle.loads(blob)
                     tt.estimator = est
                     before = _state(est, Z)
+            if case.get("retrain_original") and not case.get("mutate_original"):
+                # the SAME estimator object is trained again by its owner (other rows first), then the transfer is fitted again: a frozen
+                # transfer answers like the estimator it is given at fit time - the retrained one
+                try:
+                    est.fit(np.ascontiguousarray(X0[::-1] * 0.5 + 0.25), y0)
+                except Exception:  # noqa: BLE001
+                    est = pickle.loads(blob)
+                    tt.estimator = est
+                blob = pickle.dumps(est)
+                before = _state(est, Z)
+                tt.fit(X, y)
+                require(np.array_equal(np.asarray(_as2d(tt.transform(Z))), _as2d(getattr(pickle.loads(blob), eff)(Z)), equal_nan=True), "transfer:transform-differs:after-the-original-was-retrained",
+                        "the estimator object was trained again and the transfer fitted again: transform still answers like the earlier model", facts)
         else:
             ref = clone(R.build(case["estimator"])).fit(X, y)
             Zt = np.vstack([X[:4], X[::3]])
@@ -371,7 +384,7 @@ def _transfer_cases(draw, tier="quick"):
     d = len(ds[0]["X"][0])
     ds[1]["X"] = [(row + [0.0] * d)[:d] for row in ds[1]["X"]]
     return dict(estimator=est, method=draw(st.sampled_from(ms)), copy_estimator=draw(st.booleans()), trainable=draw(st.booleans()), datasets=ds,
-                mutate_original=draw(st.booleans()), via_copy=draw(st.sampled_from(COPIES)), flag_kind=draw(st.sampled_from(["bool", "bool", "numpy", "int"])),
+                mutate_original=draw(st.booleans()), retrain_original=draw(st.booleans()), via_copy=draw(st.sampled_from(COPIES)), flag_kind=draw(st.sampled_from(["bool", "bool", "numpy", "int"])),
                 history=[draw(st.integers(0, 1)) for _ in range(draw(st.integers(1, 3)))])
 
 
